@@ -35,12 +35,20 @@ MustReject(sc, segms, pph) ==
       /\ \A i \in 1..Len(segms) : ~(Mult(3600000, segms[i]) /\ Mult(3600000 \div segms[i], pph))
 
 \* ------------------------------------------------------------------------------------------- C06.tile
-\* period k starts at k*PD: every start is a whole multiple of PD and consecutive periods are PD apart.
-\* starts: Period@start in whole seconds, fracs: the sub-second remainder in ms (must be 0).
-TileOK(starts, fracs, pd) ==
+\* "the generated periods tile wall-clock time (period k starts at k*PD)": every start lies on a grid of step PD and
+\* consecutive periods are PD apart.  starts: Period@start in whole seconds (relative to availabilityStartTime ast, s),
+\* fracs: the sub-second remainder in ms (must be 0).  With ast # 0 the text leaves the anchor of the grid open; both are
+\* accepted: the grid anchored at availabilityStartTime (Period@start = k*PD) or at the epoch (ast + Period@start = k*PD).
+\* (sums are formed modulo PD: ast + start may exceed 31 bits)
+TileOK(starts, fracs, pd, ast) ==
    /\ pd > 0
-   /\ \A j \in 1..Len(starts) : fracs[j] = 0 /\ starts[j] >= 0 /\ starts[j] % pd = 0
+   /\ \A j \in 1..Len(starts) : fracs[j] = 0 /\ starts[j] >= 0
+   /\ \/ \A j \in 1..Len(starts) : starts[j] % pd = 0
+      \/ \A j \in 1..Len(starts) : ((starts[j] % pd) + (ast % pd)) % pd = 0
    /\ \A j \in 1..(Len(starts) - 1) : starts[j + 1] = starts[j] + pd
+\* C06.cover: periods that all lie in the future of the request instant tile nothing of the presentation (and make the
+\* partition clause vacuous): the first generated period has started.  nowB = now - ast - B in any unit (only the sign is used).
+CoverOK(nowB) == nowB >= 0
 PeriodIdx(start, pd) == start \div pd          \* the k of a period; ids must be a function of k (C06.tile, ids)
 
 \* ------------------------------------------------------------------------------------------- C06.partition
